@@ -539,7 +539,7 @@ class Flags:
         self.sub_side_effect = True   # d[E(..)] = v   (index evaluated twice under ptera: R3)
         self.except_only_names = True
         self.nested_class = True
-        self.for_attr_target = False
+        self.for_attr_target = True
         self.global_decl = False
         self.nonlocal_decl = False
         self.closure = True
@@ -687,11 +687,16 @@ def functions(flags=None, want_gen=None):
                 return ("str", "pqrs"[:n])
             return ("tuple", [int_expr(bound, 1) for _ in range(max(0, n + draw(st.sampled_from([-1, 1]))))])
 
+        taken = []
+
         def name_target():
-            pool = [v for v in LOCALS if v not in excluded]
-            return ("n", draw(st.sampled_from(pool or ["a"])))
+            pool = [v for v in LOCALS if v not in excluded and v not in taken] or [v for v in LOCALS if v not in taken]
+            v = draw(st.sampled_from(pool or ["a"]))
+            taken.append(v)
+            return ("n", v)
 
         def target(bound, allow_unpack=True):
+            del taken[:]
             k = draw(st.sampled_from(["n", "n", "n", "t", "t2", "l", "star", "attr", "sub"]))
             if not allow_unpack and k in ("t", "t2", "l", "star"):
                 k = "n"
@@ -742,6 +747,7 @@ def functions(flags=None, want_gen=None):
                 e = int_expr(bound)
                 targets = [t]
                 if nt == 1 and t[0] == "n":
+                    del taken[:]
                     targets.append(name_target())
                 for x in targets:
                     mark(bound, x)
@@ -858,9 +864,15 @@ def functions(flags=None, want_gen=None):
                 return [("yieldfrom", draw(st.sampled_from([("list", [("int", 1), ("int", 2)]), ("var", "xs"),
                                                            ("range", ("int", 2))])))]
             if k == "for":
-                tk = draw(st.sampled_from(["n", "n", "t", "t2", "star"]))
+                del taken[:]
+                tk = draw(st.sampled_from(["n", "n", "n", "t", "t", "t2", "star", "attr"]))
                 if tk == "star" and not fl.starred:
                     tk = "t"
+                if tk == "attr" and not (has_o and fl.for_attr_target):
+                    tk = "n"
+                if tk == "attr":
+                    body = block(bound, depth + 1, True, in_fn_gen)
+                    return [("for", ("attr", "o", "x"), iter_expr(bound), body, [])]
                 if tk == "n":
                     t = name_target()
                     it = iter_expr(bound)
@@ -936,6 +948,7 @@ def functions(flags=None, want_gen=None):
                 t = None
                 e = int_expr(bound, 1)
                 if fl.with_as and draw(st.booleans()):
+                    del taken[:]
                     if draw(st.integers(0, 3)) == 0:
                         t = ("t", [name_target(), name_target()])
                         e = ("tuple", [int_expr(bound, 1), int_expr(bound, 1)])
